@@ -531,6 +531,9 @@ func derivesFromNoArith(v ssa.Value, pred func(ssa.Value) bool) bool {
 		if pred(v) {
 			return true
 		}
+		if f := world.Forward(v); f != v {
+			return walk(f, d+1)
+		}
 		switch x := v.(type) {
 		case *ssa.Phi:
 			for _, e := range x.Edges {
